@@ -393,7 +393,7 @@ pub fn c06_d(sh: &Shape) {
     }
     // row: no signatures, every preimage, first lock vector (no locks met)
     let r = ((0usize << sh.nhash) + ((1usize << sh.nhash) - 1)) * (1usize << sh.nkeys);
-    let w = &sh.wits[sh.rows[r].dis as usize];
+    let w = &sh.wits[sh.rows[r].dis_m as usize]; // malleable mode: the non-malleable mode refuses to choose between two signature-free dissatisfactions
     chk!(w.kind == W_STACK, "d: typed dissatisfiable but the library has no signature-free dissatisfaction");
     if w.kind == W_STACK {
         chk!(!has_valid_sig(w), "d: dissatisfaction needs a signature");
